@@ -1299,7 +1299,10 @@ def fd_check(case, res):
                     if dx > 0.0 and max(abs(p2), abs(p3)) >= 1.0e4:      # only where the offset is huge
                         relx = max(relx, 16 * 2.0 ** -52 * max(abs(p2), abs(p3)) / dx)
         xnoise = min(relx, 1.0) * abs(rich)
-        if err > TOL_FD * scale + noise + xnoise + 0.05 * est:
+        # est = |d(h2) - d(h1)| measures how far the two difference quotients are from convergence: for a smooth energy the
+        # Richardson value is much better than that, at a kink inside the stencil (wrapped periodic value of a high power,
+        # minimum-image cut) it is not; no failure is claimed within 2 est
+        if err > TOL_FD * scale + noise + xnoise + 2.0 * est:
             if noise + xnoise > 1e-4 * scale:
                 # the rounding of the energy (or of a variable amplified by dE/dxi) swamps the difference quotient
                 return "ambiguous", "finite differences cannot resolve forces of this size (rounding noise %.3g, scale %.3g)" % (noise, scale)
@@ -1403,7 +1406,8 @@ def gen_unmodelled(r, n):
                   "center1_distanceVec", "center1_fit_distanceDir", "center1_distancePairs",
                   "rmsd_perm", "lincomb_coordNum", "lincomb_selfCoordNum", "distanceZ2_period",
                   "ev_forceNoPBC", "ev_period", "ev_distanceVec_coeff", "ev_rmsd_exp", "ev_dihedral_coeff", "ev_distancePairs_coeff",
-                  "gspathCV", "gzpathCV", "aspathCV", "azpathCV", "gspath", "gzpath", "aspath", "azpath", "scripted_vsum", "lincomb_distanceVec"]
+                  "gspathCV", "gzpathCV", "aspathCV", "azpathCV", "gspath", "gzpath", "aspath", "azpath", "scripted_vsum", "lincomb_distanceVec",
+                  "meta_nogrid_restart", "cell_meta_nogrid_restart", "opes_frozen_restart", "abmd_restart"]
     names = names + cell_names
     only = os.environ.get("C01_ONLY")          # debugging aid: restrict the sweep to kinds containing this text
     if only:
@@ -1414,6 +1418,9 @@ def gen_unmodelled(r, n):
         wrap = name.startswith("cell_")
         if wrap:
             name = name[5:]
+        rst = name.endswith("_restart")
+        if rst:
+            name = name[:-8]
         na = r.randint(6, 10)
         ids = r.sample(range(na), 4)
         others = [j for j in range(na) if j not in ids]
@@ -1680,6 +1687,17 @@ def gen_unmodelled(r, n):
                     "  distanceZ {\n    componentCoeff -1.5\n    main {\n      atomNumbers %s\n    }\n    ref {\n      atomNumbers %s\n    }\n  }\n}\n%s\nlinear {\n  colvars v0\n  centers 0.0\n  forceConstant -0.5\n}"
                     % (ids_str(ids[:2]), ids_str(oth2), ids_str(ids[2:]), ids_str(oth2), harm))
         c = raw_case(r, full_name, na, conf, touched, cell=cell)
+        if rst:
+            # state saved, fresh instance with changed legal options, state loaded (kernels / hills keep their own widths)
+            confB = conf
+            for old_, new_ in (("hillWidth 4.0", "hillWidth %r" % r.choice([2.0, 8.0])), ("hillWeight 2.0", "hillWeight 0.5"),
+                               ("gaussianSigma 0.75", "gaussianSigma %r" % r.choice([1.5, 0.375])), ("barrier 5.0", "barrier 8.0"),
+                               ("forceConstant 2.0", "forceConstant 5.0")):
+                confB = confB.replace(old_, new_)
+            if name == "meta_nogrid" and r.random() < 0.5:
+                confB = confB.replace("width 0.5", "width 1.0")
+            c["restart"] = {"raw_config": confB, "fmt": r.choice(["text", "binary"])}
+            c["restartfreq_override"] = 1001
         if script:
             c["script"] = script
         if files:
@@ -1720,6 +1738,10 @@ def gen_unmodelled(r, n):
             c["setstep"] = 999
             c["temperature"] = 300.0
             c["restartfreq"] = 100000     # OPES divides by the restart frequency (0 is the subject of C10, not of this check)
+            if c.get("restartfreq_override"):
+                # OPES writes the snapshot of its kernels taken at the last multiple of the restart frequency: the state
+                # is saved at step 1001 (two pre-steps from 999, one warm-up step), so make that step such a multiple
+                c["restartfreq"] = c.pop("restartfreq_override")
             c["presteps"] = [[(a, tuple(x + V.dyadic(r, -0.25, 0.25, bits=4) for x in c["atoms"][a][2])) for a in touched] for _ in range(2)]
         elif pre == "farther":
             # ABMD: first step with the groups farther apart sets the reference; the base step is then below it
@@ -1767,6 +1789,20 @@ def compare_case(run, case, res, mline, mout):
         run.mismatch(comp, {"config": config_text(case)}, "no step output (rc=%s %s)" % (res.get("rc"), res.get("stderr", "")), mout)
         return False
     base = res["steps"][npre]
+    if case.get("restart"):
+        for b in case["biases"]:
+            if b["type"] == "abmd":
+                # the text state keeps 14 digits of the reference: when the warm-up step left the reference AT the variable, the
+                # loaded reference differs from it in the last digits and a force of that size appears; no verdict there
+                try:
+                    i_ = b["terms"][0][0]
+                    ref_ = abmd_ref(b, [p_["v%d" % i_][0] for p_ in pre_values(case, res, True)])
+                    x_ = base["cv"]["v%d" % i_][0]
+                    if abs(x_ - ref_) <= 1e-9 * max(1.0, abs(ref_)):
+                        run.dist("tie:restart-abmd-at-its-reference")
+                        return True
+                except Exception:
+                    pass
     if any("err=ok" not in ln for ln in res.get("script", [])):
         run.mismatch(comp, {"config": config_text(case), "events": event_lines(case)}, "a script call of the history failed: %r" % res.get("script"), mout)
         return False
@@ -1804,6 +1840,10 @@ def compare_case(run, case, res, mline, mout):
         af = (base.get("af") or {}).get("v%d" % i)
         maf = ma[mi:mi + n]
         asc = max([1.0] + [abs(t_) for t_ in maf])
+        if case.get("restart") and x:
+            # a text state keeps 14 digits of hill centres / references: for a variable of size |x| the loaded centre is off
+            # by 1e-14 |x|, and so is the force of a hill the variable sits exactly on
+            asc = max([asc] + [1e-3 * abs(t_) for t_ in x])
         if not af or len(af) != n or not all(close(a, b, TOL_TIE, asc) for a, b in zip(af, maf)):
             bad.append("applied force on v%d impl=%r model=%r" % (i, af, maf))
         mi += n
@@ -1964,7 +2004,7 @@ def check(run):
     # ---- finite-difference sweep over configurations the model does not cover (a few per kind in the quick tier)
     if True:
         ur = V.rng("C01-unmodelled")
-        ucases = gen_unmodelled(ur, 195 if quick else 6000)
+        ucases = gen_unmodelled(ur, 207 if quick else 6000)
         ures = run_vsim(vsim, ucases)
         for case, res in zip(ucases, ures):
             name = case["name"]
@@ -1991,7 +2031,7 @@ def check(run):
                 run.dist("unmodelled-ambiguous:" + name)
             elif s == "fail":
                 sig = "fd:" + name
-                if name == "opes_frozen" and d["rel_err"] < 2e-3:
+                if name.startswith("opes_frozen") and d["rel_err"] < 2e-3:
                     # colvarbias_opes::evaluateKernel differentiates h*(exp(-d2/2) - c) as -val*d/sigma (the constant c is kept in
                     # the derivative: forces vanish continuously at the kernel cut-off); a larger discrepancy is a different defect
                     sig = "fd:opes_frozen:cutoff-term-omitted"
